@@ -35,6 +35,8 @@ type Prog struct {
 	Funcs  []*ssa.Function // all functions with bodies belonging to the sod package (incl. closures)
 	NPkgs  int
 	A      *Anchors
+	GoRoot map[*ssa.Function]bool // started by a go statement (closure or named function)
+	GoOnly map[*ssa.Function]bool // runs only on spawned goroutines: a go root, or called only from such functions
 }
 
 type brokenCheck struct{ msg string }
@@ -137,8 +139,66 @@ func Load(repo string, overlay map[string][]byte, needCG bool) *Prog {
 	if needCG {
 		p.CG = vta.CallGraph(ssautil.AllFunctions(prog), cha.CallGraph(prog))
 	}
+	p.findGoRoots()
 	p.A = resolveAnchors(p)
 	return p
+}
+
+// findGoRoots records which sod functions are goroutine bodies (the operand of a go statement, closure or named) and
+// which run only on such goroutines (every static call site is in a go root or in another goroutine-only function).
+func (p *Prog) findGoRoots() {
+	p.GoRoot, p.GoOnly = map[*ssa.Function]bool{}, map[*ssa.Function]bool{}
+	callers := map[*ssa.Function][]*ssa.Function{}
+	plain := map[*ssa.Function]bool{} // has an ordinary (non-go) call site outside goroutine-only code, decided below
+	for _, fn := range p.Funcs {
+		for _, b := range fn.Blocks {
+			for _, in := range b.Instrs {
+				switch v := in.(type) {
+				case *ssa.Go:
+					if mc, ok := v.Call.Value.(*ssa.MakeClosure); ok {
+						p.GoRoot[mc.Fn.(*ssa.Function)] = true
+					} else if f := v.Call.StaticCallee(); f != nil && inSodPkg(p, f) {
+						p.GoRoot[f] = true
+					}
+				case ssa.CallInstruction:
+					if f := v.Common().StaticCallee(); f != nil && inSodPkg(p, f) {
+						callers[f] = append(callers[f], fn)
+					}
+				}
+			}
+		}
+	}
+	_ = plain
+	for f := range p.GoRoot {
+		if len(callers[f]) == 0 && !(f.Parent() == nil && ast.IsExported(f.Name())) {
+			p.GoOnly[f] = true
+		}
+	}
+	for changed := true; changed; {
+		changed = false
+		for _, f := range p.Funcs {
+			if p.GoOnly[f] || f.Parent() != nil || ast.IsExported(f.Name()) || len(callers[f]) == 0 || p.GoRoot[f] {
+				continue
+			}
+			all := true
+			for _, c := range callers[f] {
+				if !p.GoOnly[c] {
+					all = false
+				}
+			}
+			if all {
+				p.GoOnly[f] = true
+				changed = true
+			}
+		}
+	}
+}
+
+func inSodPkg(p *Prog, f *ssa.Function) bool {
+	for f.Parent() != nil {
+		f = f.Parent()
+	}
+	return f.Pkg == p.SPkg || (f.Pkg == nil && f.Object() != nil && f.Object().Pkg() == p.Types)
 }
 
 // Pos renders a position relative to the repo (file:line).
